@@ -219,8 +219,13 @@ func (ws *Workspace) drawTargeting(t *tape.Tape) {
 		}
 		switch t.Draw("ws.pathsel", 4) {
 		case 1:
-			// --path: a directory or a file
+			// --path: one or two directories or files
 			m.TargetPaths = []string{ws.pickPath(t, m)}
+			if t.Draw("ws.twopaths", 2) == 1 {
+				if p2 := ws.pickPath(t, m); p2 != m.TargetPaths[0] {
+					m.TargetPaths = append(m.TargetPaths, p2)
+				}
+			}
 		case 2:
 			m.ExcludePaths = []string{ws.pickPath(t, m)}
 		case 3:
